@@ -607,6 +607,25 @@ theorem C01_duplex_complete (env : Env) (hl : EnvLaws env) (sub : Nat) (ciA ciB 
   duplex_complete (duplex_run env hl sub ciA ciB sizeA sizeB hA hB startA startB ops d chAB chBA h0 hok) hallA hallB hopenA hopenB
 
 open Nx.L1 Nx.Prudp in
+/-- **Liveness in both directions.** From the initial channels: if both ends are still open and connected and every packet
+    either end handed to its transport has been delivered to the other end at least once, each application has exactly what
+    the other one sent. (That every packet does arrive once within the retransmission budget is the timers' job:
+    `C01_retransmission_is_redelivery`, and on the real code the budget-regime sessions of the correspondence run.) -/
+theorem C01_duplex_liveness (env : Env) (hl : EnvLaws env) (sub : Nat) (ciA ciB : Cipher) (sizeA sizeB : Nat) (hA : 1 ≤ sizeA) (hB : 1 ≤ sizeB)
+    (startA startB : Nat) (hsA : startA < 65536) (hsB : startB < 65536) (ops : List DOp) (d : Duplex)
+    (h0 : DGood env sub ciA ciB sizeA sizeB startA startB d (Chan.init startA) (Chan.init startB))
+    (hok : Duplex.runOk env sub d ops = true)
+    (hopenB : (Duplex.run env sub d ops).ab.b.eof = false) (hopenA : (Duplex.run env sub d ops).ba.b.eof = false)
+    (hconA : (Duplex.run env sub d ops).ab.a.state = STATE_CONNECTED) (hconB : (Duplex.run env sub d ops).ba.a.state = STATE_CONNECTED)
+    (hallA : ∀ j, j < (Duplex.run env sub d ops).ab.net.length →
+      j ∈ arrived (wrap env ciA) sizeA (Chan.init startA) (Duplex.absAB env sub d ops))
+    (hallB : ∀ j, j < (Duplex.run env sub d ops).ba.net.length →
+      j ∈ arrived (wrap env ciB) sizeB (Chan.init startB) (Duplex.absBA env sub d ops)) :
+    ((Duplex.run env sub d ops).ab.b.queues[sub]?.getD []) = (Duplex.run env sub d ops).ab.accepted ∧
+    ((Duplex.run env sub d ops).ab.a.queues[sub]?.getD []) = (Duplex.run env sub d ops).ba.accepted :=
+  duplex_liveness env hl sub ciA ciB sizeA sizeB hA hB startA startB hsA hsB ops d h0 hok hopenB hopenA hconA hconB hallA hallB
+
+open Nx.L1 Nx.Prudp in
 /-- the duplex hypotheses hold for two endpoints that are `Established` in both directions (what a handshake leaves) -/
 theorem C01_duplex_established (env : Env) (sub startA startB : Nat) (a b : Conn)
     (hab : Established sub startA a b) (hba : Established sub startB b a) :
